@@ -19,7 +19,7 @@ package subscribe
 // MakeSubscribeResponse wraps the cached notification; when a duplicate count
 // must be reported it writes it into a CLONE, never into the cached message.
 //@ func (*Server).MakeSubscribeResponse
-//@   props C07 C08 C12
+//@   props C07 C08 C12 C01
 //@   requires s != nil
 //@   requires [cached-values-are-wellformed] isa(n.(*pb.Notification)) ==> n.(*pb.Notification) != nil
 //@     && (forall i int :: 0 <= i && i < len(n.(*pb.Notification).Update) ==> n.(*pb.Notification).Update[i] != nil)
